@@ -31,7 +31,7 @@ Tables(e) ==
       [] e = "HamiltonianCanonical" -> {"ham_verlet", "ham_plus_disp_entry"}
       [] e = "Isobaric" -> {"cell_iso", "cell_aniso_masked", "cell_shape_noscale", "cell_and_disp"}
       [] e = "Isotension" -> {"cell_aniso_stress", "cell_shape_masked"}
-      [] e = "GrandCanonical" -> {"exch_atomic", "exch_molecular", "exch_x2", "exch_plus_exch_bias", "exch_and_disp", "exch_default_label", "same_move_two_names", "exch_and_coarse_disp"}
+      [] e = "GrandCanonical" -> {"exch_atomic", "exch_molecular", "exch_x2", "exch_plus_exch_bias", "exch_and_disp", "exch_default_label", "exch_default_label_zero", "same_move_two_names", "shared_exch_in_composite", "exch_and_coarse_disp"}
 
 \* the fields that influence the future
 Common == {"atoms", "rng", "step_count", "max_cycles", "move_table", "move_params", "operation_params", "criteria", "schedule_params"}
@@ -41,10 +41,16 @@ FieldsOf(e) ==
       [] e = "HamiltonianCanonical" -> {"temperature", "last_energy", "last_positions", "momenta", "integrator_params"}
       [] e = "Isobaric" -> {"temperature", "last_energy", "last_positions", "pressure", "last_cell", "mask", "scale_atoms"}
       [] e = "Isotension" -> {"temperature", "last_energy", "last_positions", "pressure", "last_cell", "mask", "scale_atoms", "external_stress"}
-      [] e = "GrandCanonical" -> {"temperature", "last_energy", "last_positions", "chemical_potential", "particle_count", "accessible_volume", "exchange_species", "labels", "default_label", "insert_bias"}
+      [] e = "GrandCanonical" -> {"temperature", "last_energy", "last_positions", "chemical_potential", "particle_count", "accessible_volume", "exchange_species", "labels", "default_label", "insert_bias", "preselection"}
 
-\* the design's claim: the restart dictionary carries every future-relevant field
-Saved(e) == FieldsOf(e)
+\* the design's claim: the restart dictionary carries every future-relevant field ...
+Transient(e) == IF e = "GrandCanonical" THEN {"preselection"} ELSE {}
+Saved(e) == FieldsOf(e) \ Transient(e)
+\* ... except the pre-selections of a move (to_add_atoms / to_delete_label / to_displace_labels), which are not serialized
+\* because every call of a move -- stand-alone or as a member of a composite -- leaves them at their default (None):
+\* at every point where the restart observer can run they carry no information.  (A rebuilt table holds fresh, distinct
+\* move objects, so a pre-selection that survived a call in a move object shared by two entries would be lost.)
+DefaultAtSavePoints(e) == Transient(e)
 
 VARIABLES ens, table, n, k, step, status, restarted
 
@@ -67,7 +73,7 @@ StepOnce == /\ step < n
 
 Restart == /\ step = k /\ ~restarted
            /\ restarted' = TRUE
-           /\ status' = [f \in DOMAIN status |-> IF f \in Saved(ens) THEN status[f] ELSE "lost"]
+           /\ status' = [f \in DOMAIN status |-> IF f \in Saved(ens) \cup DefaultAtSavePoints(ens) THEN status[f] ELSE "lost"]
            /\ UNCHANGED <<ens, table, n, k, step>>
 
 Next == StepOnce \/ Restart
